@@ -24,7 +24,8 @@ RULE = (
     "out of ~90 single mutations of a valid answer: kind, signature, signer, created_at at both bounds +-1 s, challenge "
     "of another / an earlier connection / prefix / empty, relay URL equal / prefix / substring / superstring / empty / "
     "case / trailing slash, tags missing / bare / duplicated / extra, payload of wrong JSON type; plus the AUTH "
-    "sequences good->bad, bad->good, P1->P2, P1->replayed P2 answer of another connection). Non-trivial = a payload the "
+    "sequences good->bad, bad->good, P1->P2, P1->replayed P2 answer of another connection, an answer ACCEPTED on its own "
+    "connection replayed on one / two other connections and on the same connection 700 s later). Non-trivial = a payload the "
     "reference rejects (must-refuse) or an identity-preservation check after a failed attempt. Distinct = distinct "
     "(config, mutation label, prior identity)."
 )
@@ -237,6 +238,41 @@ async def run_payloads(backend, urls_kind, counters, seed):
                 if got != want:
                     viols.append({"key": "sequence/%s/step%d" % (seqname, i), "msg": "[%s/%s] AUTH sequence %s: after step %d the identity is %s, expected %s" % (backend, urls_kind, seqname, i, got, want),
                                   "replay": {"backend": backend, "urls": urls_kind, "label": "seq:" + seqname}})
+        # ---- an answer that was ACCEPTED once is not a ticket: replayed elsewhere / later it must fail -------
+        for seqname in ("accepted-answer-replayed-on-other-connection", "accepted-answer-replayed-twice-elsewhere", "accepted-answer-replayed-when-stale"):
+            counters["sequences"] = counters.get("sequences", 0) + 1
+            clock.now = NOW
+            conn, ch = await fresh_conn("r-" + seqname)
+            conn2, ch2 = await fresh_conn("r2-" + seqname)
+            conn3, ch3 = await fresh_conn("r3-" + seqname)
+            good1 = ref.make_event(p1, kind=22242, created_at=NOW, tags=[["relay", url], ["challenge", ch]], content="")
+            good2 = ref.make_event(p2, kind=22242, created_at=NOW, tags=[["relay", url], ["challenge", ch]], content="")
+            base = 200000 + counters["sequences"] * 10
+            rp = {"backend": backend, "urls": urls_kind, "label": "seq:" + seqname}
+            await conn.cmd(["AUTH", good1])
+            got = await identity_of(rig, conn, p1, base)
+            if got != "P1":
+                viols.append({"key": "sequence/%s/genuine-use" % seqname, "msg": "[%s/%s] %s: the genuine answer left the connection as %s" % (backend, urls_kind, seqname, got), "replay": rp})
+                continue
+            nontrivial.append(h([urls_kind, "seq", seqname]))
+            if seqname == "accepted-answer-replayed-when-stale":
+                await conn.cmd(["AUTH", good2])
+                got = await identity_of(rig, conn, p1, base + 1)
+                clock.now = NOW + 700
+                await conn.cmd(["AUTH", good1])
+                got2 = await identity_of(rig, conn, p1, base + 2)
+                clock.now = NOW
+                if got == "P2" and got2 != "P2":
+                    viols.append({"key": "sequence/%s" % seqname, "msg": "[%s/%s] an answer accepted earlier was accepted again 700 s after its timestamp (identity %s -> %s)" % (backend, urls_kind, got, got2), "replay": rp})
+                continue
+            for j, c in enumerate([conn2, conn3] if seqname.endswith("twice-elsewhere") else [conn2]):
+                await c.cmd(["AUTH", good1])
+                await rig.quiesce()
+                got = "anon" if c.exited else await identity_of(rig, c, p1, base + 3 + j)
+                if got != "anon":
+                    viols.append({"key": "sequence/%s" % seqname,
+                                  "msg": "[%s/%s] the answer signed for the challenge of one connection and accepted there made ANOTHER connection (own challenge %s...) %s" % (backend, urls_kind, (ch2 or "")[:8], got),
+                                  "replay": rp})
         # ---- challenge provenance ---------------------------------------------------------------------
         counters["challenges_checked"] = counters.get("challenges_checked", 0) + len(chs)
         issued_vals = [v for _, v in issued]
